@@ -37,7 +37,7 @@ type vfC32RT struct {
 	nFaults  int
 	// origBad[lo] is set when the ORIGINAL (first) attempt for the chunk at
 	// offset lo was answered with anything but the correct bytes
-	origBad map[int]bool
+	origBad     map[int]bool
 	hedgeFaults int
 }
 
@@ -128,20 +128,29 @@ func (rt *vfC32RT) RoundTrip(req *http.Request) (*http.Response, error) {
 func TestVerif_C32(t *testing.T) {
 	venum.Begin("C32")
 	defer venum.Finish(t)
-	type shape struct {
-		size, chunk, par int
-		hedgeMult      float64
-		maxHedges      int
-	}
-	shapes := []shape{
+	shapes := []vfC32Shape{
 		{3, 2, 2, 0, 0}, {3, 1, 2, 0, 0}, {4, 2, 1, 0, 0}, {3, 1, 8, 2, 1}, {4, 2, 8, 2, 4}, {3, 1, 1, 2, 4},
 	}
 	if venum.Thorough() {
-		shapes = append(shapes, shape{5, 2, 2, 0, 0}, shape{4, 1, 2, 2, 1}, shape{5, 2, 8, 2, 1})
+		shapes = append(shapes, vfC32Shape{5, 2, 2, 0, 0}, vfC32Shape{4, 1, 2, 2, 1}, vfC32Shape{5, 2, 8, 2, 1})
 	}
 	devBound := venum.QT(2, 3)
 	preBound := venum.QT(1, 1)
-	venum.Explore(t, venum.Cfg{Name: "range-fetch-schedules-x-faults", DevBound: devBound, PreemptBound: preBound, Shardable: true, CheckDeterminism: true},
+	vfC32Explore(t, "range-fetch-schedules-x-faults", shapes, devBound, preBound)
+	// A wider hedged resource (4 chunks, one hedge allowed) explored without
+	// preemptions: enough to let both halves of a hedged pair report while
+	// another chunk fails for good, at a fraction of the cost.
+	vfC32Explore(t, "hedged-four-chunks-no-preemption", []vfC32Shape{{4, 1, 8, 2, 1}, {4, 1, 2, 2, 1}}, 2, 0)
+}
+
+type vfC32Shape struct {
+	size, chunk, par int
+	hedgeMult        float64
+	maxHedges        int
+}
+
+func vfC32Explore(t *testing.T, name string, shapes []vfC32Shape, devBound, preBound int) {
+	venum.Explore(t, venum.Cfg{Name: name, DevBound: devBound, PreemptBound: preBound, Shardable: true, CheckDeterminism: true},
 		func(x *venum.X) {
 			sh := shapes[x.Choose(len(shapes), "shape")]
 			resource := []byte("abcdefgh")[:sh.size]
